@@ -3,6 +3,7 @@ package extract
 import (
 	"fmt"
 	"go/ast"
+	"go/parser"
 	"go/token"
 	"os"
 	"path/filepath"
@@ -39,7 +40,7 @@ func init() {
 			srcs = append(srcs, m.file)
 		}
 		out := Header("Matchers", srcs...)
-		out += "structure Info where\n  id : String\n  name : String\n  query : List String\n  versionFilter : Bool\n  authoritative : Bool\n  vulnLits : List String\n  cmpOps : List String\n  deriving Repr, DecidableEq\n\n"
+		out += "structure Info where\n  id : String\n  name : String\n  query : List String\n  queryIf : List String\n  filter : List String\n  versionFilter : Bool\n  authoritative : Bool\n  vulnLits : List String\n  cmpOps : List String\n  deriving Repr, DecidableEq\n\n"
 		var ids []string
 		for _, m := range ms {
 			_, f, err := ParseFile(repo, m.file)
@@ -56,15 +57,15 @@ func init() {
 			if err != nil {
 				return "", fmt.Errorf("%s: Name: %w", m.file, err)
 			}
-			var query []string
-			ast.Inspect(queryFn.Body, func(n ast.Node) bool {
-				if se, ok := n.(*ast.SelectorExpr); ok {
-					if id, ok := se.X.(*ast.Ident); ok && id.Name == "driver" && se.Sel.Name != "MatchConstraint" {
-						query = append(query, se.Sel.Name)
-					}
-				}
-				return true
-			})
+			query, queryIf := c03QueryFacts(queryFn.Body)
+			filterFn := FuncDecl(f, m.recv, "Filter")
+			if filterFn == nil || filterFn.Body == nil {
+				return "", fmt.Errorf("%s: Filter method of %s not found", m.file, m.recv)
+			}
+			filterFacts, err := c03FilterFacts(repo, filepath.Dir(m.file), filterFn)
+			if err != nil {
+				return "", fmt.Errorf("%s: Filter: %w", m.file, err)
+			}
 			if len(query) == 0 {
 				return "", fmt.Errorf("%s: Query: no driver.<constraint> found", m.file)
 			}
@@ -83,8 +84,8 @@ func init() {
 				return "", fmt.Errorf("%s: VersionFilter without VersionAuthoritative", m.file)
 			}
 			lits, ops := c03VulnerableFacts(vulnFn.Body)
-			out += fmt.Sprintf("def %s : Info :=\n  { id := %s, name := %s,\n    query := %s,\n    versionFilter := %v, authoritative := %v,\n    vulnLits := %s,\n    cmpOps := %s }\n\n",
-				m.id, LeanString(m.id), LeanString(name), LeanStrList(query), vf, auth, LeanStrList(lits), LeanStrList(ops))
+			out += fmt.Sprintf("def %s : Info :=\n  { id := %s, name := %s,\n    query := %s,\n    queryIf := %s,\n    filter := %s,\n    versionFilter := %v, authoritative := %v,\n    vulnLits := %s,\n    cmpOps := %s }\n\n",
+				m.id, LeanString(m.id), LeanString(name), LeanStrList(query), LeanStrList(queryIf), LeanStrList(filterFacts), vf, auth, LeanStrList(lits), LeanStrList(ops))
 			ids = append(ids, m.id)
 		}
 		out += "def all : List Info := [" + strings.Join(ids, ", ") + "]\n"
@@ -106,6 +107,21 @@ func init() {
 		}
 		out += "\n/-- String literals of `buildGetQuery`'s `if opts.VersionFiltering` block, and the\n    `VersionRange(...)` constructor calls of the vulnerability insert statement. -/\n"
 		out += "def dbRangeTest : List String := " + LeanStrList(sqlLits) + "\n"
+		// the registered default matchers and the query builder's constraint switch
+		defs, facs, err := c03Defaults(repo)
+		if err != nil {
+			return "", err
+		}
+		out += "\n/-- matchers/defaults/defaults.go: the packages of the elements of `defaultMatchers`, and the names\n    registered with a factory of their own. -/\n"
+		out += "def defaults : List String := " + LeanStrList(defs) + "\n"
+		out += "def defaultFactories : List String := " + LeanStrList(facs) + "\n"
+		need, cols, err := c03QueryColumns(repo)
+		if err != nil {
+			return "", err
+		}
+		out += "\n/-- datastore/postgres/querybuilder.go buildGetQuery: which part of the record a constraint needs\n    (`constraint:Distribution|Repository`), and the column / record field each constraint compares\n    (`constraint:column:value expression`). -/\n"
+		out += "def queryNeeds : List String := " + LeanStrList(need) + "\n"
+		out += "def queryColumns : List String := " + LeanStrList(cols) + "\n"
 		// the pinned versions of the three third-party comparators the models transcribe
 		pins, err := c03Pins(repo)
 		if err != nil {
@@ -294,4 +310,338 @@ func c03Pins(repo string) ([]string, error) {
 		out = append(out, found)
 	}
 	return out, nil
+}
+
+// c03QueryFacts: the driver.<constraint> selectors of a Query body; those
+// inside an if statement are conditional ("<condition>:<constraint>").
+func c03QueryFacts(body *ast.BlockStmt) (always, cond []string) {
+	var walk func(n ast.Node, under string)
+	walk = func(n ast.Node, under string) {
+		ast.Inspect(n, func(x ast.Node) bool {
+			switch y := x.(type) {
+			case *ast.IfStmt:
+				if y.Init != nil {
+					walk(y.Init, under)
+				}
+				c := c03ExprText(y.Cond)
+				if under != "" {
+					c = under + "&&" + c
+				}
+				walk(y.Body, c)
+				if y.Else != nil {
+					walk(y.Else, "!("+c+")")
+				}
+				return false
+			case *ast.SelectorExpr:
+				if id, ok := y.X.(*ast.Ident); ok && id.Name == "driver" && y.Sel.Name != "MatchConstraint" {
+					if under == "" {
+						always = append(always, y.Sel.Name)
+					} else {
+						cond = append(cond, under+":"+y.Sel.Name)
+					}
+				}
+			}
+			return true
+		})
+	}
+	walk(body, "")
+	return always, cond
+}
+
+// c03PkgFiles parses the non-test Go files of a package directory.
+func c03PkgFiles(repo, dir string) ([]*ast.File, error) {
+	ents, err := os.ReadDir(filepath.Join(repo, dir))
+	if err != nil {
+		return nil, err
+	}
+	var out []*ast.File
+	fset := token.NewFileSet()
+	for _, e := range ents {
+		n := e.Name()
+		if e.IsDir() || !strings.HasSuffix(n, ".go") || strings.HasSuffix(n, "_test.go") || strings.HasSuffix(n, "_verif.go") {
+			continue
+		}
+		f, err := parser.ParseFile(fset, filepath.Join(repo, dir, n), nil, 0)
+		if err != nil {
+			return nil, err
+		}
+		out = append(out, f)
+	}
+	return out, nil
+}
+
+func c03FindValue(files []*ast.File, name string) ast.Expr {
+	for _, f := range files {
+		for _, d := range f.Decls {
+			gd, ok := d.(*ast.GenDecl)
+			if !ok {
+				continue
+			}
+			for _, s := range gd.Specs {
+				vs, ok := s.(*ast.ValueSpec)
+				if !ok {
+					continue
+				}
+				for i, n := range vs.Names {
+					if n.Name == name && i < len(vs.Values) {
+						return vs.Values[i]
+					}
+				}
+			}
+		}
+	}
+	return nil
+}
+
+// c03Resolve: the string(s) an expression of a Filter body stands for:
+// a literal, a package-level constant, a slice of them, or a field of a
+// package-level composite literal (GoldRepo.Name, AL1Dist.Name).
+func c03Resolve(files []*ast.File, e ast.Expr, depth int) ([]string, bool) {
+	if depth > 4 {
+		return nil, false
+	}
+	switch x := e.(type) {
+	case *ast.BasicLit:
+		if x.Kind == token.STRING {
+			if s, err := strconv.Unquote(x.Value); err == nil {
+				return []string{s}, true
+			}
+		}
+	case *ast.Ident:
+		if v := c03FindValue(files, x.Name); v != nil {
+			return c03Resolve(files, v, depth+1)
+		}
+	case *ast.CompositeLit:
+		var out []string
+		for _, el := range x.Elts {
+			if _, isKV := el.(*ast.KeyValueExpr); isKV {
+				return nil, false
+			}
+			s, ok := c03Resolve(files, el, depth+1)
+			if !ok {
+				return nil, false
+			}
+			out = append(out, s...)
+		}
+		return out, true
+	case *ast.SelectorExpr:
+		id, ok := x.X.(*ast.Ident)
+		if !ok {
+			return nil, false
+		}
+		v := c03FindValue(files, id.Name)
+		if u, ok := v.(*ast.UnaryExpr); ok {
+			v = u.X
+		}
+		cl, ok := v.(*ast.CompositeLit)
+		if !ok {
+			return nil, false
+		}
+		for _, el := range cl.Elts {
+			if kv, ok := el.(*ast.KeyValueExpr); ok {
+				if k, ok := kv.Key.(*ast.Ident); ok && k.Name == x.Sel.Name {
+					return c03Resolve(files, kv.Value, depth+1)
+				}
+			}
+		}
+	}
+	return nil, false
+}
+
+// c03FilterFacts: what a Filter body compares, in source order:
+// "<record path>==nil" / "!=nil", "<record path>=<v1>|<v2>…" for an equality
+// with resolvable strings or a contains(list, record path) call.
+func c03FilterFacts(repo, dir string, fd *ast.FuncDecl) ([]string, error) {
+	files, err := c03PkgFiles(repo, dir)
+	if err != nil {
+		return nil, err
+	}
+	if fd.Type.Params == nil || len(fd.Type.Params.List) != 1 || len(fd.Type.Params.List[0].Names) != 1 {
+		return nil, fmt.Errorf("unexpected parameter list")
+	}
+	param := fd.Type.Params.List[0].Names[0].Name
+	isRec := func(e ast.Expr) (string, bool) {
+		if c03RootIdent(e) != param {
+			return "", false
+		}
+		return strings.TrimPrefix(c03ExprText(e), param+"."), true
+	}
+	var facts []string
+	var bad error
+	ast.Inspect(fd.Body, func(n ast.Node) bool {
+		switch x := n.(type) {
+		case *ast.BinaryExpr:
+			if x.Op != token.EQL && x.Op != token.NEQ {
+				return true
+			}
+			l, r := x.X, x.Y
+			if _, ok := isRec(l); !ok {
+				l, r = r, l
+			}
+			path, ok := isRec(l)
+			if !ok {
+				return true
+			}
+			if id, ok := r.(*ast.Ident); ok && id.Name == "nil" {
+				facts = append(facts, path+x.Op.String()+"nil")
+				return true
+			}
+			vals, ok := c03Resolve(files, r, 0)
+			if !ok {
+				bad = fmt.Errorf("cannot resolve %s", c03ExprText(r))
+				return true
+			}
+			op := "="
+			if x.Op == token.NEQ {
+				op = "!="
+			}
+			facts = append(facts, path+op+strings.Join(vals, "|"))
+		case *ast.CallExpr:
+			if id, ok := x.Fun.(*ast.Ident); ok && id.Name == "contains" && len(x.Args) == 2 {
+				path, ok := isRec(x.Args[1])
+				vals, ok2 := c03Resolve(files, x.Args[0], 0)
+				if !ok || !ok2 {
+					bad = fmt.Errorf("contains(...) call not understood")
+					return true
+				}
+				facts = append(facts, path+"="+strings.Join(vals, "|"))
+			}
+		}
+		return true
+	})
+	if bad != nil {
+		return nil, bad
+	}
+	if len(facts) == 0 {
+		return nil, fmt.Errorf("no comparison found")
+	}
+	return facts, nil
+}
+
+// c03Defaults reads matchers/defaults/defaults.go: the elements of the
+// defaultMatchers slice (by package) and the names registered with their own factory.
+func c03Defaults(repo string) (defs, facs []string, err error) {
+	_, f, err := ParseFile(repo, "matchers/defaults/defaults.go")
+	if err != nil {
+		return nil, nil, err
+	}
+	v := c03FindValue([]*ast.File{f}, "defaultMatchers")
+	cl, ok := v.(*ast.CompositeLit)
+	if !ok {
+		return nil, nil, fmt.Errorf("defaults.go: defaultMatchers is not a composite literal")
+	}
+	for _, el := range cl.Elts {
+		e := el
+		if u, ok := e.(*ast.UnaryExpr); ok {
+			e = u.X
+		}
+		if c, ok := e.(*ast.CompositeLit); ok {
+			e = c.Type
+		}
+		se, ok := e.(*ast.SelectorExpr)
+		if !ok {
+			return nil, nil, fmt.Errorf("defaults.go: element of defaultMatchers not understood")
+		}
+		defs = append(defs, c03ExprText(se))
+	}
+	ast.Inspect(f, func(n ast.Node) bool {
+		ce, ok := n.(*ast.CallExpr)
+		if !ok || c03ExprText(ce.Fun) != "registry.Register" || len(ce.Args) != 2 {
+			return true
+		}
+		if bl, ok := ce.Args[0].(*ast.BasicLit); ok && bl.Kind == token.STRING {
+			name, _ := strconv.Unquote(bl.Value)
+			e := ce.Args[1]
+			if u, ok := e.(*ast.UnaryExpr); ok {
+				e = u.X
+			}
+			if c, ok := e.(*ast.CompositeLit); ok {
+				e = c.Type
+			}
+			facs = append(facs, name+":"+c03ExprText(e))
+		}
+		return true
+	})
+	if len(defs) == 0 {
+		return nil, nil, fmt.Errorf("defaults.go: no default matcher found")
+	}
+	return defs, facs, nil
+}
+
+// c03QueryColumns reads the two switches over the constraint in buildGetQuery.
+func c03QueryColumns(repo string) (need, cols []string, err error) {
+	_, f, err := ParseFile(repo, "datastore/postgres/querybuilder.go")
+	if err != nil {
+		return nil, nil, err
+	}
+	fd := FuncDecl(f, "", "buildGetQuery")
+	if fd == nil || fd.Body == nil {
+		return nil, nil, fmt.Errorf("querybuilder.go: buildGetQuery not found")
+	}
+	ast.Inspect(fd.Body, func(n ast.Node) bool {
+		sw, ok := n.(*ast.SwitchStmt)
+		if !ok || sw.Tag == nil || c03ExprText(sw.Tag) != "m" {
+			return true
+		}
+		for _, st := range sw.Body.List {
+			cc, ok := st.(*ast.CaseClause)
+			if !ok || len(cc.List) == 0 {
+				continue
+			}
+			var names []string
+			for _, e := range cc.List {
+				names = append(names, strings.TrimPrefix(c03ExprText(e), "driver."))
+			}
+			for _, b := range cc.Body {
+				switch y := b.(type) {
+				case *ast.IfStmt: // if record.X == nil { return error }
+					if be, ok := y.Cond.(*ast.BinaryExpr); ok && be.Op == token.EQL {
+						for _, nm := range names {
+							need = append(need, nm+":"+strings.TrimPrefix(c03ExprText(be.X), "record."))
+						}
+					}
+				case *ast.AssignStmt: // ex = goqu.Ex{"col": value}
+					if len(y.Rhs) != 1 {
+						continue
+					}
+					cl, ok := y.Rhs[0].(*ast.CompositeLit)
+					if !ok || len(cl.Elts) != 1 {
+						continue
+					}
+					kv, ok := cl.Elts[0].(*ast.KeyValueExpr)
+					if !ok {
+						continue
+					}
+					col, _ := strconv.Unquote(c03ExprText(kv.Key))
+					val := c03ExprText(kv.Value)
+					if u, ok := kv.Value.(*ast.UnaryExpr); ok {
+						val = "&" + c03ExprText(u.X)
+					}
+					if vcl, ok := kv.Value.(*ast.CompositeLit); ok && len(vcl.Elts) == 1 { // goqu.Op{exp.NeqOp.String(): ""}
+						if kv2, ok := vcl.Elts[0].(*ast.KeyValueExpr); ok {
+							val = c03ExprText(c03CallRecv(kv2.Key)) + " " + c03ExprText(kv2.Value)
+						}
+					}
+					for _, nm := range names {
+						cols = append(cols, nm+":"+col+":"+strings.TrimPrefix(val, "record."))
+					}
+				}
+			}
+		}
+		return true
+	})
+	if len(need) == 0 || len(cols) == 0 {
+		return nil, nil, fmt.Errorf("querybuilder.go: constraint switches not recognised")
+	}
+	return need, cols, nil
+}
+
+// c03CallRecv: x.M() -> x
+func c03CallRecv(e ast.Expr) ast.Expr {
+	if ce, ok := e.(*ast.CallExpr); ok {
+		if se, ok := ce.Fun.(*ast.SelectorExpr); ok {
+			return se.X
+		}
+	}
+	return e
 }
